@@ -215,6 +215,10 @@ func (enc *Encoding) decodeBlock(dst []byte, src []byte, baseOffset int) (int, i
 
 	// Use big-endian representation (the default with Go's library)
 	raw := res.Bytes()
+	if len(raw) > paddedLen {
+		// The block encodes a number too big for its decoded length.
+		return 0, 0, ErrInvalidEncodingLength
+	}
 	p := 0
 	if len(raw) < paddedLen {
 		p = paddedLen - len(raw)
